@@ -80,6 +80,36 @@ impl Prop for C19 {
       None => match guarded(|| mech_syntax::parser::parse(src)) { Ok(Ok(t)) => { let j = serde_json::to_string(&t).unwrap_or_default(); j.contains("\"VariableAssign\"") || j.contains("\"OpAssign\"") || j.contains("\"FsmDeclare\"") && false } _ => return Outcome::trivial().tag("not-parsable") },
     };
     let mut snaps: Vec<Snapshot> = Vec::new();
+    // a request for ZERO steps changes nothing, through the interpreter and through the REPL's step command; the REPL command with a
+    // count, and without one (= one step), takes the steps Interpreter::step takes
+    // (every program that assigns, one in four of the others)
+    if mutates || case.id.bytes().fold(0u32, |h, b| h.wrapping_mul(31).wrapping_add(b as u32)) % 4 == 0 {
+      match run_steps(src, 0, false) { Ok((b0, a0)) => if b0 != a0 { return Outcome::violated("zero-steps-changed", format!("program\n{}\nstep(0,0) changed {} into {}", src, show_snapshot(&b0), show_snapshot(&a0))); }, Err(e) => { return if e.starts_with("interpret") { Outcome::trivial().tag("not-interpretable") } else { Outcome::violated("step-panic", format!("program\n{}\nstep(0,0): {}", src, e)) } } }
+      for (cmd, n) in [(":step 0", 0u64), (":step ", 1), (":step 1", 1), (":step 2", 2), (":step 3", 3)] {
+        let direct = match run_steps(src, n, false) { Ok(x) => x, Err(_) => break };
+        let mut s = Sess::new();
+        if !s.eval(src).is_ok() { break; }
+        let mut repl = mech::MechRepl::from(std::mem::replace(&mut s.intrp, mech_interpreter::Interpreter::new(0)));
+        let parsed = mech_syntax::parse_repl_command(cmd);
+        let Ok((_, rc)) = parsed else { continue };
+        // (a spelling the command grammar does not read as the step command is not a step request)
+        if !format!("{:?}", rc).starts_with("Step") { continue; }
+        let r = guarded(|| repl.execute_repl_command(rc));
+        if let Err(p) = r { return Outcome::violated("step-panic", format!("program\n{}\nREPL `{}`: {}", src, cmd, p)); }
+        let active = repl.active;
+        let Some(intrp) = repl.interpreters.remove(&active) else { break };
+        let after = (Sess { intrp }).snapshot();
+        if after != direct.1 { return Outcome::violated("repl-step-differs", format!("program\n{}\nREPL `{}` leaves {} but step(0,{}) leaves {}", src, cmd, show_snapshot(&after), n, show_snapshot(&direct.1))); }
+      }
+    }
+    // the transition limit of state machines (max_steps) has nothing to do with plan re-evaluation: with a small limit the same steps are taken
+    if !src.contains('#') && mutates {
+      let mut s = Sess::new(); s.intrp.max_steps = 2;
+      if s.eval(src).is_ok() {
+        let r = guarded(|| { let _ = s.intrp.step(0, 5); });
+        if r.is_ok() { if let Ok(d) = run_steps(src, 5, true) { let after = s.snapshot(); if after != d.1 { return Outcome::violated("n-steps-differ-from-single-steps", format!("program\n{}\nwith max_steps = 2, step(0,5) gives {} but 5 single steps give {}", src, show_snapshot(&after), show_snapshot(&d.1))); } } }
+      }
+    }
     for (i, n) in STEPS.iter().enumerate() {
       let a = match run_steps(src, *n, false) { Ok(x) => x, Err(e) => { return if e.starts_with("interpret") { Outcome::trivial().tag("not-interpretable") } else { Outcome::violated("step-panic", format!("program\n{}\nstep(0,{}): {}", src, n, e)) } } };
       let a2 = match run_steps(src, *n, false) { Ok(x) => x, Err(e) => return Outcome::violated("nondeterministic", format!("second run failed: {}", e)) };
